@@ -1,4 +1,5 @@
 """C05 A correct node's own votes obey the voting rules under every event order."""
+from .. import node as ND
 from .. import votor as V
 
 G = (0, "G")
@@ -26,5 +27,10 @@ def run(ctx):
         V.run_model(ctx, "w0", W0, 7, 10, sample=2500000, witnesses=["W_Final", "W_Nf", "W_Sf"])
         V.run_model(ctx, "handover", HANDOVER, 7, 10, sample=2500000,
                     witnesses=["W_Pruned", "W_NotarSecondWindow"])
+    # the composition Pool + Votor (consensus.rs wiring): the rules hold without assumptions about the pool,
+    # and the real pair takes exactly the spec's transitions
+    ND.run_model(ctx, "node_w0", ND.W0["stakes"], ND.W0["own"], ND.W0["max_slot"],
+                 9 if ctx.tier == "quick" else 12, ND.W0["d"],
+                 sample=(120000 if ctx.tier == "quick" else 1500000), witnesses=["W_Final"])
     return ctx.finish(rule="every (votor state, event) pair of the model is one case; events: pool events, "
                            "blockstore events (several blocks per slot, children before parents), timeouts")
